@@ -146,6 +146,23 @@ fn faults(ctx: &mut Ctx, bytes: &[u8], version: u8, last_section: &[u8], describ
             ctx.violation("Ontology::from_bytes", "accepts a valid file followed by extra bytes", json!({"file": describe(), "format_version": version, "file_len": bytes.len(), "suffix": name, "bytes_hex": hexd(&b)}));
         }
     }
+    if version == 1 {
+        // a headerless v1 body behind a header announcing any version other than 2 and 3 (in particular 1,
+        // which has no header form) is a file announcing an unsupported version
+        for vb in 0..=255u8 {
+            if vb == 2 || vb == 3 {
+                continue;
+            }
+            ctx.exec();
+            ctx.transitions(1);
+            let mut b = b"HPO".to_vec();
+            b.push(vb);
+            b.extend_from_slice(bytes);
+            if let Ok(Some(_)) = decode_ok(&b) {
+                ctx.violation("Ontology::from_bytes", "accepts a file announcing an unsupported version", json!({"file": describe(), "layout": "v1 body behind an HPO header", "version_byte": vb, "bytes_hex": hexd(&b)}));
+            }
+        }
+    }
     if version >= 2 {
         for vb in 0..=255u8 {
             if vb == version {
